@@ -277,5 +277,6 @@ pub fn subs() -> Vec<Box<dyn DynSub>> {
         sub(Sub { name: "c10.grammar_text", source: Source::Gen(gram_strategy, 1_600_000, 15_000_000), oracle: gram_oracle, known: no_known, hang_is_violation: false }),
         sub(Sub { name: "c10.numeric_forms", source: Source::Gen(num_strategy, 800_000, 5_000_000), oracle: num_oracle, known: no_known, hang_is_violation: false }),
         crate::props::fuzzsub::c10_fuzz(),
+        crate::props::fuzzsub::fc10(),
     ]
 }
